@@ -99,3 +99,161 @@ fn c11_jump_target_arithmetic() {
     kani::cover!(r.is_err() && offset == i32::MAX);
     std::mem::forget(r);
 }
+
+// ---------------------------------------------------------------------------------------
+// K2: section decoders on arbitrary payloads, with the allocation monitor
+// ---------------------------------------------------------------------------------------
+use trust_runtime::bytecode::verif_exports::decode::decode_section_data_x;
+
+static mut PAYLOAD_LEN: usize = 0;
+
+/// Stub for `Vec::<T>::with_capacity`: the request must be proportional to the payload.
+pub fn monitored_with_capacity<T>(capacity: usize) -> Vec<T> {
+    let bytes = (capacity as u128) * (core::mem::size_of::<T>() as u128);
+    let budget = unsafe { PAYLOAD_LEN as u128 } * 128 + 256;
+    assert!(bytes <= budget, "C11: a section decoder requests an allocation that is not proportional to the payload size");
+    // keep the capacity guarantee callers may rely on (std writes through raw pointers after with_capacity);
+    // reserve_exact is not stubbed. A request over budget has already failed the assertion above.
+    let mut v = Vec::new();
+    v.reserve_exact(if bytes <= budget { capacity } else { 0 });
+    v
+}
+
+fn section_one<const N: usize>(id: u16, minor: u16) {
+    let buf: [u8; N] = kani::any();
+    unsafe { PAYLOAD_LEN = N; }
+    let r = decode_section_data_x(1, minor, id, &buf);
+    kani::cover!(r.is_err());
+    std::mem::forget(r);
+}
+
+// @verif prop=C11 kernel=K2 tiers=quick,thorough timeout=2400 unwind=1 stubbing=yes mem=16 replay_native=stbc-string-table loops=decode_string_table:3,decode_section_data:3,Iterator:3,from_utf8:6,run_utf8_validation:6,new:26,drop_glue::<[smol_str::SmolStr]>:3
+// @verif what=string-table section decoder on arbitrary 4- and 8-byte payloads: Ok/Err, never a panic, and its Vec::with_capacity(count) request stays proportional to the payload (count is an untrusted u32)
+// @verif fns=bytecode::decode::{decode_section_data,decode_string_table}, bytecode::reader::BytecodeReader
+// @verif bound=every payload of 4 and of 8 bytes, format minor version 0 and 1
+// @verif stub=alloc::vec::Vec::<T>::with_capacity -> allocation monitor (asserts cap*size_of::<T>() <= 128*|payload|+256, returns Vec::new()); alloc::fmt::format -> empty String
+#[kani::proof]
+#[kani::stub(std::vec::Vec::with_capacity, monitored_with_capacity)]
+#[kani::stub(alloc::fmt::format, crate::common::empty_format)]
+fn c11_string_table_decoder_bounded_allocation() {
+    let minor: u16 = if kani::any() { 0 } else { 1 };
+    if kani::any() { section_one::<4>(1, minor); } else { section_one::<8>(1, minor); }
+}
+
+// @verif prop=C11 kernel=K2 tiers=thorough timeout=3000 unwind=1 stubbing=yes mem=16 replay_native=stbc-string-table loops=decode_section_data:4,decode_type_table:4,decode_type_entry:4,decode_string_table:4,Iterator:4,from_utf8:6,run_utf8_validation:6,new:26,drop_glue::<[:4,memcmp:6,compare_bytes:6,to_vec:14
+// @verif what=type_table section decoder (section id 2) on arbitrary 4- and 8-byte payloads: Ok/Err, never a panic or out-of-bounds read, every Vec::with_capacity(count) request proportional to the payload
+// @verif fns=bytecode::decode::decode_section_data (section id 2), bytecode::reader::BytecodeReader
+// @verif bound=every payload of 4 and of 12 bytes, format minor version 0 and 1
+// @verif stub=alloc::vec::Vec::<T>::with_capacity -> allocation monitor; alloc::fmt::format -> empty String
+#[kani::proof]
+#[kani::stub(std::vec::Vec::with_capacity, monitored_with_capacity)]
+#[kani::stub(alloc::fmt::format, crate::common::empty_format)]
+fn c11_section_type_table_decoder_total() {
+    // probed: a 12-byte payload exhausts 16 GB for this section kind
+    let minor: u16 = if kani::any() { 0 } else { 1 };
+    if kani::any() { section_one::<4>(2, minor); } else { section_one::<8>(2, minor); }
+}
+
+// @verif prop=C11 kernel=K2 tiers=thorough timeout=3000 unwind=1 stubbing=yes mem=16 replay_native=stbc-string-table loops=decode_section_data:4,decode_type_table:4,decode_type_entry:4,decode_string_table:4,Iterator:4,from_utf8:6,run_utf8_validation:6,new:26,drop_glue::<[:4,memcmp:6,compare_bytes:6,to_vec:14
+// @verif what=const_pool section decoder (section id 3) on arbitrary 4- and 12-byte payloads: Ok/Err, never a panic or out-of-bounds read, every Vec::with_capacity(count) request proportional to the payload
+// @verif fns=bytecode::decode::decode_section_data (section id 3), bytecode::reader::BytecodeReader
+// @verif bound=every payload of 4 and of 12 bytes, format minor version 0 and 1
+// @verif stub=alloc::vec::Vec::<T>::with_capacity -> allocation monitor; alloc::fmt::format -> empty String
+#[kani::proof]
+#[kani::stub(std::vec::Vec::with_capacity, monitored_with_capacity)]
+#[kani::stub(alloc::fmt::format, crate::common::empty_format)]
+fn c11_section_const_pool_decoder_total() {
+    let minor: u16 = if kani::any() { 0 } else { 1 };
+    if kani::any() { section_one::<4>(3, minor); } else { section_one::<12>(3, minor); }
+}
+
+// @verif prop=C11 kernel=K2 tiers=quick,thorough timeout=3000 unwind=1 stubbing=yes mem=16 replay_native=stbc-string-table loops=decode_section_data:4,decode_type_table:4,decode_type_entry:4,decode_string_table:4,Iterator:4,from_utf8:6,run_utf8_validation:6,new:26,drop_glue::<[:4,memcmp:6,compare_bytes:6,to_vec:14
+// @verif what=ref_table section decoder (section id 4) on arbitrary 4- and 12-byte payloads: Ok/Err, never a panic or out-of-bounds read, every Vec::with_capacity(count) request proportional to the payload
+// @verif fns=bytecode::decode::decode_section_data (section id 4), bytecode::reader::BytecodeReader
+// @verif bound=every payload of 4 and of 12 bytes, format minor version 0 and 1
+// @verif stub=alloc::vec::Vec::<T>::with_capacity -> allocation monitor; alloc::fmt::format -> empty String
+#[kani::proof]
+#[kani::stub(std::vec::Vec::with_capacity, monitored_with_capacity)]
+#[kani::stub(alloc::fmt::format, crate::common::empty_format)]
+fn c11_section_ref_table_decoder_total() {
+    let minor: u16 = if kani::any() { 0 } else { 1 };
+    if kani::any() { section_one::<4>(4, minor); } else { section_one::<12>(4, minor); }
+}
+
+// @verif prop=C11 kernel=K2 tiers=thorough timeout=3000 unwind=1 stubbing=yes mem=16 replay_native=stbc-string-table loops=decode_section_data:4,decode_type_table:4,decode_type_entry:4,decode_string_table:4,Iterator:4,from_utf8:6,run_utf8_validation:6,new:26,drop_glue::<[:4,memcmp:6,compare_bytes:6,to_vec:14
+// @verif what=pou_index section decoder (section id 5) on arbitrary 4- and 12-byte payloads: Ok/Err, never a panic or out-of-bounds read, every Vec::with_capacity(count) request proportional to the payload
+// @verif fns=bytecode::decode::decode_section_data (section id 5), bytecode::reader::BytecodeReader
+// @verif bound=every payload of 4 and of 12 bytes, format minor version 0 and 1
+// @verif stub=alloc::vec::Vec::<T>::with_capacity -> allocation monitor; alloc::fmt::format -> empty String
+#[kani::proof]
+#[kani::stub(std::vec::Vec::with_capacity, monitored_with_capacity)]
+#[kani::stub(alloc::fmt::format, crate::common::empty_format)]
+fn c11_section_pou_index_decoder_total() {
+    let minor: u16 = if kani::any() { 0 } else { 1 };
+    if kani::any() { section_one::<4>(5, minor); } else { section_one::<12>(5, minor); }
+}
+
+// @verif prop=C11 kernel=K2 tiers=thorough timeout=3000 unwind=1 stubbing=yes mem=16 replay_native=stbc-string-table loops=decode_section_data:4,decode_type_table:4,decode_type_entry:4,decode_string_table:4,Iterator:4,from_utf8:6,run_utf8_validation:6,new:26,drop_glue::<[:4,memcmp:6,compare_bytes:6,to_vec:14
+// @verif what=resource_meta section decoder (section id 7) on arbitrary 4- and 12-byte payloads: Ok/Err, never a panic or out-of-bounds read, every Vec::with_capacity(count) request proportional to the payload
+// @verif fns=bytecode::decode::decode_section_data (section id 7), bytecode::reader::BytecodeReader
+// @verif bound=every payload of 4 and of 12 bytes, format minor version 0 and 1
+// @verif stub=alloc::vec::Vec::<T>::with_capacity -> allocation monitor; alloc::fmt::format -> empty String
+#[kani::proof]
+#[kani::stub(std::vec::Vec::with_capacity, monitored_with_capacity)]
+#[kani::stub(alloc::fmt::format, crate::common::empty_format)]
+fn c11_section_resource_meta_decoder_total() {
+    let minor: u16 = if kani::any() { 0 } else { 1 };
+    if kani::any() { section_one::<4>(7, minor); } else { section_one::<12>(7, minor); }
+}
+
+// @verif prop=C11 kernel=K2 tiers=quick,thorough timeout=3000 unwind=1 stubbing=yes mem=16 replay_native=stbc-string-table loops=decode_section_data:4,decode_type_table:4,decode_type_entry:4,decode_string_table:4,Iterator:4,from_utf8:6,run_utf8_validation:6,new:26,drop_glue::<[:4,memcmp:6,compare_bytes:6,to_vec:14
+// @verif what=io_map section decoder (section id 8) on arbitrary 4- and 12-byte payloads: Ok/Err, never a panic or out-of-bounds read, every Vec::with_capacity(count) request proportional to the payload
+// @verif fns=bytecode::decode::decode_section_data (section id 8), bytecode::reader::BytecodeReader
+// @verif bound=every payload of 4 and of 12 bytes, format minor version 0 and 1
+// @verif stub=alloc::vec::Vec::<T>::with_capacity -> allocation monitor; alloc::fmt::format -> empty String
+#[kani::proof]
+#[kani::stub(std::vec::Vec::with_capacity, monitored_with_capacity)]
+#[kani::stub(alloc::fmt::format, crate::common::empty_format)]
+fn c11_section_io_map_decoder_total() {
+    let minor: u16 = if kani::any() { 0 } else { 1 };
+    if kani::any() { section_one::<4>(8, minor); } else { section_one::<12>(8, minor); }
+}
+
+// @verif prop=C11 kernel=K2 tiers=quick,thorough timeout=3000 unwind=1 stubbing=yes mem=16 replay_native=stbc-string-table loops=decode_section_data:4,decode_type_table:4,decode_type_entry:4,decode_string_table:4,Iterator:4,from_utf8:6,run_utf8_validation:6,new:26,drop_glue::<[:4,memcmp:6,compare_bytes:6,to_vec:14
+// @verif what=debug_map section decoder (section id 9) on arbitrary 4- and 12-byte payloads: Ok/Err, never a panic or out-of-bounds read, every Vec::with_capacity(count) request proportional to the payload
+// @verif fns=bytecode::decode::decode_section_data (section id 9), bytecode::reader::BytecodeReader
+// @verif bound=every payload of 4 and of 12 bytes, format minor version 0 and 1
+// @verif stub=alloc::vec::Vec::<T>::with_capacity -> allocation monitor; alloc::fmt::format -> empty String
+#[kani::proof]
+#[kani::stub(std::vec::Vec::with_capacity, monitored_with_capacity)]
+#[kani::stub(alloc::fmt::format, crate::common::empty_format)]
+fn c11_section_debug_map_decoder_total() {
+    let minor: u16 = if kani::any() { 0 } else { 1 };
+    if kani::any() { section_one::<4>(9, minor); } else { section_one::<12>(9, minor); }
+}
+
+// @verif prop=C11 kernel=K2 tiers=quick,thorough timeout=3000 unwind=1 stubbing=yes mem=16 replay_native=stbc-string-table loops=decode_section_data:4,decode_type_table:4,decode_type_entry:4,decode_string_table:4,Iterator:4,from_utf8:6,run_utf8_validation:6,new:26,drop_glue::<[:4,memcmp:6,compare_bytes:6,to_vec:14
+// @verif what=var_meta section decoder (section id 11) on arbitrary 4- and 12-byte payloads: Ok/Err, never a panic or out-of-bounds read, every Vec::with_capacity(count) request proportional to the payload
+// @verif fns=bytecode::decode::decode_section_data (section id 11), bytecode::reader::BytecodeReader
+// @verif bound=every payload of 4 and of 12 bytes, format minor version 0 and 1
+// @verif stub=alloc::vec::Vec::<T>::with_capacity -> allocation monitor; alloc::fmt::format -> empty String
+#[kani::proof]
+#[kani::stub(std::vec::Vec::with_capacity, monitored_with_capacity)]
+#[kani::stub(alloc::fmt::format, crate::common::empty_format)]
+fn c11_section_var_meta_decoder_total() {
+    let minor: u16 = if kani::any() { 0 } else { 1 };
+    if kani::any() { section_one::<4>(11, minor); } else { section_one::<12>(11, minor); }
+}
+
+// @verif prop=C11 kernel=K2 tiers=quick,thorough timeout=3000 unwind=1 stubbing=yes mem=16 replay_native=stbc-string-table loops=decode_section_data:4,decode_type_table:4,decode_type_entry:4,decode_string_table:4,Iterator:4,from_utf8:6,run_utf8_validation:6,new:26,drop_glue::<[:4,memcmp:6,compare_bytes:6,to_vec:14
+// @verif what=retain_init section decoder (section id 12) on arbitrary 4- and 12-byte payloads: Ok/Err, never a panic or out-of-bounds read, every Vec::with_capacity(count) request proportional to the payload
+// @verif fns=bytecode::decode::decode_section_data (section id 12), bytecode::reader::BytecodeReader
+// @verif bound=every payload of 4 and of 12 bytes, format minor version 0 and 1
+// @verif stub=alloc::vec::Vec::<T>::with_capacity -> allocation monitor; alloc::fmt::format -> empty String
+#[kani::proof]
+#[kani::stub(std::vec::Vec::with_capacity, monitored_with_capacity)]
+#[kani::stub(alloc::fmt::format, crate::common::empty_format)]
+fn c11_section_retain_init_decoder_total() {
+    let minor: u16 = if kani::any() { 0 } else { 1 };
+    if kani::any() { section_one::<4>(12, minor); } else { section_one::<12>(12, minor); }
+}
